@@ -309,6 +309,15 @@ func init() {
 	})
 	reg(B+"SetString", func(p *Path, fn *ssa.Function, a []Value) Value {
 		base := p.concreteInt(a[2], "SetString base")
+		if c, conc := strConcrete(a[1].(StrV)); conc {
+			// concrete text: Go's own parser (any base; base 0 reads prefixes and a leading 0 as octal)
+			v, ok := new(big.Int).SetString(c, base)
+			if !ok {
+				return TupleV{PtrV{}, tFalse}
+			}
+			set(p, a[0], mkInt(v))
+			return TupleV{a[0], tTrue}
+		}
 		if base != 10 && base != 0 {
 			p.unsup("big.Int.SetString base %d", base)
 		}
